@@ -13,7 +13,8 @@ from .. import core, corpus, realparse, treeproj
 from ..tok import enc, NONE
 from . import c01
 
-BUDGET_S = 20
+BUDGET_S = 20               # CPU seconds per parse
+WALL_BACKSTOP_S = 600
 
 
 class _Timeout(Exception):
@@ -68,8 +69,12 @@ def _run_one(args):
     from html5lib import treebuilders, _inputstream
     # internal chunk size of the input stream (class attribute; this is a forked worker process)
     _inputstream.HTMLUnicodeInputStream._defaultChunkSize = chunk or 10240
+    # the budget is CPU time of this worker (ITIMER_VIRTUAL), so that a loaded machine cannot turn a slow parse into an alarm;
+    # a generous wall-clock limit remains as a backstop for a parse that blocks without using the CPU
+    signal.signal(signal.SIGVTALRM, _alarm)
     signal.signal(signal.SIGALRM, _alarm)
-    signal.alarm(BUDGET_S)
+    signal.setitimer(signal.ITIMER_VIRTUAL, BUDGET_S)
+    signal.alarm(WALL_BACKSTOP_S)
     t0 = time.time()
     try:
         if builder == "dom":
@@ -93,10 +98,11 @@ def _run_one(args):
                 tree = treeproj.from_etree_document(r) if cx is None else treeproj.from_etree_fragment(r)
             tree = _shallow(tree)
     except _Timeout:
-        return {"err": "no result within %d s" % BUDGET_S, "cfg": args[1:5], "src": src if isinstance(src, str) else list(src)}
+        return {"err": "no result within %d s of CPU time" % BUDGET_S, "cfg": args[1:5], "src": src if isinstance(src, str) else list(src)}
     except Exception as e:
         return {"err": "%s: %s" % (type(e).__name__, str(e)[:120]), "cfg": args[1:5], "src": src if isinstance(src, str) else list(src)}
     finally:
+        signal.setitimer(signal.ITIMER_VIRTUAL, 0)
         signal.alarm(0)
     return {"doc": cx is None, "tree": tree, "cfg": args[1:5], "src": src if isinstance(src, str) else list(src),
             "wall": round(time.time() - t0, 3)}
